@@ -422,7 +422,8 @@ def parse(expr):
 
     def remove_backticks(expr):
         if not isinstance(expr, var):
-            return expr
+            # not a substitution: let the mapper recurse (e.g. into subscripts)
+            return None
         varname = expr.name
         if varname.startswith("`") and varname.endswith("`"):
             return var(varname[1:-1])
